@@ -31,7 +31,7 @@ def selStep (al : List VerS) (best : Option VerInfo) (v : VerInfo) : Option VerI
   if al.contains v.ver then
     match best with
     | none => some v
-    | some b => if b.rank < v.rank then some v else some b
+    | some b => if b.rank ≤ v.rank then some v else some b
   else best
 
 theorem selectVersion_eq (vs : List VerInfo) (al : List VerS) :
@@ -59,7 +59,7 @@ theorem selStep_inv (al : List VerS) (seen : List VerInfo) (best : Option VerInf
     | some b =>
       simp only [SelInv] at h
       obtain ⟨hb, hab, hmax⟩ := h
-      by_cases hlt : b.rank < v.rank
+      by_cases hlt : b.rank ≤ v.rank
       · simp only [hlt, if_true, SelInv]
         refine ⟨by simp, hv, fun x hx hax => ?_⟩
         rcases List.mem_append.mp hx with hx | hx
@@ -265,7 +265,7 @@ theorem regDeprec_of {w : World} {rs : RegSrc} {al : List VerS} {vs : List VerIn
     (hv : assoc w.versions rs.pkg = some (some vs)) (hs : selectVersion vs al = some sel) :
     regDeprec w rs al = depOf vs sel := by
   simp only [regDeprec, hv, hs, depOf]
-  cases List.find? (fun v => decide (v.rank = sel.rank)) vs <;> rfl
+  cases List.find? (fun v => decide (v.ver = sel.ver)) vs <;> rfl
 
 theorem resolveReg_of {w : World} {rs : RegSrc} {al : List VerS} {vs : List VerInfo} {sel : VerInfo}
     (hv : assoc w.versions rs.pkg = some (some vs)) (hs : selectVersion vs al = some sel) :
@@ -285,8 +285,7 @@ theorem regDeprec_key_unique {w : World} {rs rs' : RegSrc} {al al' : List VerS}
   rw [← hp, hv] at hv'
   cases hv'
   rw [regDeprec_of hv hs, regDeprec_of (hp ▸ hv) hs']
-  have := selectVersion_rank_unique hs hs' hver
-  simp [depOf, this]
+  simp [depOf, hver]
 
 /-! ## 3. soundness and cache coherence: holds in every state of every run -/
 
